@@ -2,8 +2,11 @@ use std::borrow::Cow;
 use std::io;
 use std::sync::{Arc, OnceLock};
 use std::time::Duration;
+#[cfg(not(feature = "verif-hooks"))]
 #[cfg(not(target_arch = "wasm32"))]
 use std::time::Instant;
+#[cfg(feature = "verif-hooks")]
+use crate::verif_hooks::Instant;
 
 use portable_atomic::{AtomicU64, AtomicU8, Ordering};
 #[cfg(target_arch = "wasm32")]
